@@ -239,9 +239,13 @@ type Cnr struct {
 // Quirks switch the model to follow implementation behaviour that deviates
 // from the stated rules (used only to keep searching past a recorded finding).
 type Quirks struct {
-	// LockIgnoresTombstoneWhenExpired: a LOCK is admitted on a target that is
+	// LockOverridesTombstone: a LOCK is admitted on a target that is
 	// tombstoned AND expired, and a live lock then hides the tombstone.
 	LockOverridesTombstone bool
+	// FirstLockOnly: only the first (DB order) non-expired LOCK targeting an
+	// object is examined; if it is removed (default garbage mark) the object
+	// counts as unlocked even when another live lock exists.
+	FirstLockOnly bool
 }
 
 // Model is the reference model of one metabase.
@@ -306,7 +310,7 @@ func expired(exp, epoch int) bool { return exp >= 0 && epoch > exp }
 
 // locked: some stored LOCK targets id, is not expired at epoch (never, if
 // ignoreExp) and is not itself removed by a tombstone or default garbage mark.
-func (c *Cnr) locked(id, epoch int, ignoreExp bool) bool {
+func (c *Cnr) locked(id, epoch int, ignoreExp bool, q Quirks) bool {
 	for _, x := range c.sortedIDs() {
 		o := c.Objs[x]
 		if o.Type != TLock || o.Target != id {
@@ -316,6 +320,9 @@ func (c *Cnr) locked(id, epoch int, ignoreExp bool) bool {
 			continue
 		}
 		if len(c.tombstones(x)) > 0 || c.Marks[x] == MarkDefault {
+			if q.FirstLockOnly {
+				return false
+			}
 			continue
 		}
 		return true
@@ -365,7 +372,7 @@ func (c *Cnr) direct(id, epoch int, ignoreExp bool, q Quirks) Reasons {
 	if c.Marks[id] == MarkDefault {
 		r |= Garbage
 	}
-	if r != 0 && c.locked(id, epoch, ignoreExp) {
+	if r != 0 && c.locked(id, epoch, ignoreExp, q) {
 		r &= Tombstoned
 		if q.LockOverridesTombstone {
 			r = 0
@@ -450,7 +457,7 @@ func (m *Model) Locked(a Addr, epoch int, ignoreExp bool) bool {
 	if !c.Exists || c.Removed {
 		return false
 	}
-	return c.locked(a.I, epoch, ignoreExp)
+	return c.locked(a.I, epoch, ignoreExp, m.Quirks)
 }
 
 // View is the status of one address.
@@ -648,7 +655,7 @@ func (m *Model) Put(s uni.Spec, epoch int) Class {
 				return LockRemoval
 			}
 		}
-		if c.Exists && c.locked(o.Target, epoch, false) {
+		if c.Exists && c.locked(o.Target, epoch, false, m.Quirks) {
 			return Locked
 		}
 		marks = append(c.children(o.Target, 0), o.Target)
@@ -852,7 +859,7 @@ func (m *Model) Listed() (must, may []Addr) {
 func (m *Model) ExpiredAt(epoch int) []Addr {
 	var r []Addr
 	m.each(func(ci int, c *Cnr, id int, o *Obj) {
-		if c.Removed || !expired(o.Exp, epoch) || c.locked(id, epoch, false) {
+		if c.Removed || !expired(o.Exp, epoch) || c.locked(id, epoch, false, m.Quirks) {
 			return
 		}
 		r = append(r, Addr{ci, id})
